@@ -167,11 +167,12 @@ def assign_def(rng, is_async, payload, concrete, dynamic=True):
     d.append(('events', [('go', ev)], True))
     return d
 
-def full_def(is_async, payload, concrete, dynamic=True, ptype='Pay'):
+def full_def(is_async, payload, concrete, dynamic=True, ptype='Pay', data=True):
     """deterministic: every hook kind at event and at transition level, with and without an around callback,
     an unless-only edge, a multi-source and a superstate-source transition, a superstate target, data on leaves at
     two depths and on two nested superstates, a self-transition of a data state — in one of the four generated shapes"""
     P = [('payload', [ptype])] if payload else []
+    DT = ['D'] if data else None
     def h(k):
         # conditions used as `unless` get names of their own (a name that is both a guard and an unless-condition
         # of one edge could never let it fire)
@@ -184,9 +185,9 @@ def full_def(is_async, payload, concrete, dynamic=True, ptype='Pay'):
     if dynamic:
         d.append(('dynamic', True))
     d.append(('initial', 'Idle'))
-    d.append(('states', [('leaf', 'Idle', ['D']),
-                         ('sup', 'Flight', ['D'], [('state', 'Launch', None),
-                                                   ('sup', 'Outer', ['D'], [('state', 'HalfOpen', ['D']), ('state', 'Busy', None),
+    d.append(('states', [('leaf', 'Idle', DT),
+                         ('sup', 'Flight', DT, [('state', 'Launch', None),
+                                                   ('sup', 'Outer', DT, [('state', 'HalfOpen', DT), ('state', 'Busy', None),
                                                                            ('initial', 'Busy')]),
                                                    ('initial', 'Launch')]),
                          ('leaf', 'Done', None)]))
@@ -366,6 +367,16 @@ def scn_edges(info, d, cap_edges=10, cap_bits=4):
                 out.append([op_line('newdyn 4')] + [op_line(call(x, '8'), guards, None) for x in paths[leaf]] +
                            [op_line(f'set {sp["state"]} 7'), op_line(f'read {sp["state"]}'), op_line(f'into {leaf}'),
                             op_line(f'topt {sp["state"]}'), op_line('todyn'), op_line(f'read {sp["state"]}'), op_line('drop')])
+    if dyn:
+        # the complement: in every reachable state, every event the relation has no edge for (it must be refused as
+        # an invalid transition naming that state, and change nothing)
+        have = {(e['src'], e['event']) for e in info['edges']}
+        for st_ in list(paths)[:12]:
+            missing = [x for x in info['events'] if (st_, x['name']) not in have][:6]
+            if missing:
+                out.append([op_line('newdyn 4')] + [op_line(call(x, '8'), guards, None) for x in paths[st_]] +
+                           [op_line(f'handle {x["pascal"]} {"9" if x["payload"] else "-"}', guards, None) for x in missing] +
+                           [op_line('state'), op_line('drop')])
     for e in info['edges'][:cap_edges]:
         if e['src'] not in paths:
             continue
@@ -482,7 +493,7 @@ def module_code(idx, d, text, info, skip_typed=None):
     states = [s['name'] for s in info['states']]
     snake = {s['name']: s['snake'] for s in info['states']}
     first = states[0]
-    MT = (lambda s: f'{M}<{s}>') if conc else (lambda s: f'{M}<Ctx, {s}>')
+    MT = (lambda s: f'{M}<def::{s}>') if conc else (lambda s: f'{M}<Ctx, def::{s}>')
     DT = info['dynname'] if conc else f"{info['dynname']}<Ctx>"
     EV = info['eventenum']
     hdr = f'impl<S> {M}<S>' if conc else f'impl<C, S> {M}<C, S>'
@@ -500,6 +511,7 @@ def module_code(idx, d, text, info, skip_typed=None):
     A('use state_machines::state_machine;')
     A('use state_machines::core::{AroundOutcome, AroundStage, TransitionError, TransitionErrorKind};')
     A('state_machine! {')
+    text_at = len(L)
     A(text)
     A('}')
     for s in states:
@@ -530,14 +542,37 @@ def module_code(idx, d, text, info, skip_typed=None):
         parg = f', p: &{PT}' if payload else ''
         pid = 'Some(p.id)' if payload else 'None'
         susp = 'rt::suspend(e.s).await;' if asy else ''
+        # async hooks are written as plain functions returning a future, so that the moment a hook is *called*
+        # is observable (rt::enter) apart from the moment its body starts: C15 wants each hook started only
+        # after the previous one completed
+        parg_a = f", p: &'a {PT}" if payload else ''
         if kind in ('guards', 'unless'):
-            A(f'  {afn} {name}(&self, ctx: &{ctxty}{parg}) -> bool {{')
+            if asy:
+                A(f"  fn {name}<'a>(&'a self, ctx: &'a {ctxty}{parg_a}) -> impl ::core::future::Future<Output = bool> + 'a {{ rt::enter(\"{name}\"); async move {{")
+            else:
+                A(f'  {afn} {name}(&self, ctx: &{ctxty}{parg}) -> bool {{')
             A(f'    let e = rt::hook("cond", "{name}", rt::sname::<S>(), rt::cid(&self.ctx), Some(rt::cid(ctx)), {pid}, self.slots_text()); {susp}')
-            A(f'    rt::cond_answer(&e, "{name}") }}')
+            A(f'    rt::cond_answer(&e, "{name}") }}' + (' }' if asy else ''))
         elif kind in ('before', 'after'):
-            A(f'  {afn} {name}(&mut self{parg}) {{')
+            # (a machine without state data has nothing a callback could write: its async callbacks take `&self`,
+            #  so that two of them *can* be called before either is awaited - the ordering C15 forbids is then
+            #  observed at run time instead of being refused by the borrow checker)
+            shared = asy and not info['storage']
+            if asy:
+                A(f"  fn {name}<'a>(&'a {'' if shared else 'mut '}self{parg_a}) -> impl ::core::future::Future<Output = ()> + 'a {{ rt::enter(\"{name}\"); async move {{")
+            else:
+                A(f'  {afn} {name}(&mut self{parg}) {{')
             A(f'    let e = rt::hook("{kind}", "{name}", rt::sname::<S>(), rt::cid(&self.ctx), None, {pid}, self.slots_text()); {susp}')
-            A('    self.apply_write(&e.w); }')
+            A(('    let _ = &e.w; }' if shared else '    self.apply_write(&e.w); }') + (' }' if asy else ''))
+        elif asy:
+            A(f"  fn {name}<'a>(&'a self, stage: AroundStage) -> impl ::core::future::Future<Output = AroundOutcome<{first}>> + 'a {{ rt::enter(\"{name}\"); async move {{")
+            A('    let kind = match stage { AroundStage::Before => "ab", AroundStage::AfterSuccess => "aa" };')
+            A(f'    let e = rt::hook(kind, "{name}", rt::sname::<S>(), rt::cid(&self.ctx), None, None, self.slots_text()); {susp}')
+            A('    match e.a { None => AroundOutcome::Proceed, Some(ab) => AroundOutcome::Abort(TransitionError {')
+            A(f'      from: {first}, event: "harness", kind: match ab {{')
+            A('        rt::Abort::G(n) => TransitionErrorKind::GuardFailed { guard: rt::leak(&n) },')
+            A('        rt::Abort::A(n) => TransitionErrorKind::ActionFailed { action: rt::leak(&n) },')
+            A('        rt::Abort::I => TransitionErrorKind::InvalidTransition } }) } } }')
         else:
             A(f'  {afn} {name}(&self, stage: AroundStage) -> AroundOutcome<{first}> {{')
             A('    let kind = match stage { AroundStage::Before => "ab", AroundStage::AfterSuccess => "aa" };')
@@ -549,7 +584,18 @@ def module_code(idx, d, text, info, skip_typed=None):
             A('        rt::Abort::I => TransitionErrorKind::InvalidTransition } }) } }')
     A('}')
     A('}')   # end of `def`
-    A('use def::*;')
+    # a state may be called `None`, `Some`, `Option`, ... (the markers live in `def` and shadow the prelude there):
+    # the harness's own code in `def` names the prelude items by their full paths, and the enclosing module imports
+    # only the machine's types, never the markers
+    import re as _re
+    for k_ in range(len(L)):
+        if k_ != text_at and k_ > 1:
+            l_ = L[k_]
+            l_ = _re.sub(r'(?<![:\w])Some\(', '::core::option::Option::Some(', l_)
+            l_ = _re.sub(r'(?<![:\w])None\b', '::core::option::Option::None', l_)
+            l_ = _re.sub(r'(?<![:\w])Option<', '::core::option::Option<', l_)
+            L[k_] = l_
+    A('use def::{' + ', '.join([M] + ([info['dynname'], EV] if dyn else [])) + '};')
     A('use crate::rt::{self, Named, HasId, Ctx, Pay, PayC, D};')
     A('use state_machines::core::{AroundOutcome, AroundStage, TransitionError, TransitionErrorKind};')
     A('use std::panic::{catch_unwind, AssertUnwindSafe};')
